@@ -1,5 +1,5 @@
 From Coq Require Import Reals ZArith List String.
-From OV Require Import Ops RInst XR Gen.RealRays Gen.Standard Gen.C07K Model.Trace Model.M_C07 Lemmas.L_C07_kernel Lemmas.L_C07_redesc Lemmas.L_C07_mirror Lemmas.L_C07_scale Lemmas.L_C07_system.
+From OV Require Import Ops RInst XR Gen.RealRays Gen.Standard Gen.C07K Model.Trace Model.M_C07 Lemmas.L_C07_kernel Lemmas.L_C07_redesc Lemmas.L_C07_mirror Lemmas.L_C07_scale Lemmas.L_C07_system Lemmas.L_Standard Spec.S_C07 Lemmas.L_C07_spec.
 Local Open Scope R_scope.
 Import ListNotations.
 
@@ -223,4 +223,36 @@ Theorem C07_scale_system_decentres_partial :
        pc_dy (scale_system (O:=ROps) s p) = pc_dy (scaled_presc (O:=ROps) s p).
 Proof. exact scale_system_decentres_partial. Qed.
 Print Assumptions C07_scale_system_decentres_partial.
+
+Theorem C07_untilted_quadric_is_sphere :
+  forall X Y Z vx vy vz Rc : R,
+       let
+       '(x0, y0, z0) := k_translate ROps (- vx)%R (- vy)%R (- vz)%R X Y Z in
+        quadric 0 Rc x0 y0 z0 = 0%R <-> on_sphere (centre_of (vx, vy, vz) Rc) Rc (X, Y, Z).
+Proof. exact untilted_quadric_is_sphere. Qed.
+Print Assumptions C07_untilted_quadric_is_sphere.
+
+Theorem C07_tilted_x_quadric_is_same_sphere :
+  forall X Y Z vx vy vz Rc a : R,
+       let
+       '(tx, ty, tz) := tilted_vertex_x (vx, vy, vz) Rc a in
+        let
+        '(x1, y1, z1) := k_translate ROps (- tx)%R (- ty)%R (- tz)%R X Y Z in
+         let
+         '(y2, z2, _, _) := k_rotate_x ROps (- a)%R y1 z1 0%R 0%R in
+          quadric 0 Rc x1 y2 z2 = 0%R <-> on_sphere (centre_of (vx, vy, vz) Rc) Rc (X, Y, Z).
+Proof. exact tilted_x_quadric_is_same_sphere. Qed.
+Print Assumptions C07_tilted_x_quadric_is_same_sphere.
+
+Theorem C07_tilted_y_quadric_is_same_sphere :
+  forall X Y Z vx vy vz Rc a : R,
+       let
+       '(tx, ty, tz) := tilted_vertex_y (vx, vy, vz) Rc a in
+        let
+        '(x1, y1, z1) := k_translate ROps (- tx)%R (- ty)%R (- tz)%R X Y Z in
+         let
+         '(x2, z2, _, _) := k_rotate_y ROps (- a)%R x1 z1 0%R 0%R in
+          quadric 0 Rc x2 y1 z2 = 0%R <-> on_sphere (centre_of (vx, vy, vz) Rc) Rc (X, Y, Z).
+Proof. exact tilted_y_quadric_is_same_sphere. Qed.
+Print Assumptions C07_tilted_y_quadric_is_same_sphere.
 
